@@ -613,6 +613,19 @@ def muladd(a: fp.Real, b: fp.Real, c: fp.Real) -> fp.Real:
 
 
 @fp.fpy
+def muladd8(a: fp.Real, b: fp.Real, c: fp.Real) -> fp.Real:
+    # the rounding error of a product: zero when the product is rounded before the sum (as written),
+    # the error itself once the two are fused -- a fused copy and the source differ for nearly all arguments
+    with fp.FP16:
+        t = a / 3 + 1
+        u = c / 7 + 1
+        p = t * u
+        q = -p
+        r = t * u + q
+    return r
+
+
+@fp.fpy
 def muladd16(a: fp.Real, b: fp.Real, c: fp.Real) -> tuple[fp.Real, fp.Real]:
     with fp.FP16:
         t = a * b + c
@@ -621,6 +634,7 @@ def muladd16(a: fp.Real, b: fp.Real, c: fp.Real) -> tuple[fp.Real, fp.Real]:
 
 
 SIG = {
+    'muladd8': ['num', 'num', 'num'],
     'widen': ['num'],
     'slow_churn': ['num'],
     'q_a16': ['num'],
@@ -721,6 +735,7 @@ FAILING = ['asserting', 'indexer', 'exact_or_fail', 'calls_failing', 'via_picky'
 
 # strategies that may be applied to each function (name -> list of (strategy, kwargs))
 DERIVABLE = {
+    'muladd8': [('rw_fma', {}), ('simplify', {})],
     'q_a16': [('simplify', {}), ('lift_context', {})],
     'q_b8': [('simplify', {}), ('lift_context', {})],
     'muladd': [('rw_fma', {}), ('rw_fma', {}), ('simplify', {})],
